@@ -9,6 +9,7 @@ RULE = ('sFlow datagrams (agent v4/v6) of 0..12 samples, three quarters flow / e
         'ACL, function, unknown records; the rest counter/drop samples; through the real SFlowPipe with a recording '
         'transport: implementation == model for every message column; mutants at byte level; the probe datagrams of the '
         'documentation-column theorem (one extended record each, five raw headers) through the real pipe. '
+        'a third of the generated histories also run through the pipe AS cmd/goflow2 ASSEMBLES IT (Prometheus template system, Prometheus and panic wrappers around producer and decoder). '
         'non-trivial = at least one flow message produced; distinct by input bytes')
 TRUSTED = ['Coq 8.16.1 kernel (coqc)', 'extraction + ocaml/main.ml glue', 'Go harness harness/pipe.go, bin/engine.py, bin/pipefam.py',
            'modelled, not verified: producer/proto/producer_sf.go, proto.go (sFlow branch), utils/pipe.go SFlowPipe']
